@@ -8,12 +8,46 @@ SPEC = {
     "requires": "From AG Require Import Loader.",
     "def_type": "unit",
     "streams": [
-        {"kind": "EXH", "type": "(cfg * list (step * sobs) * bool)", "eval": "check_case", "per_shard": 50},
-        {"kind": "RND", "type": "(cfg * list (step * sobs) * bool)", "eval": "check_case", "per_shard": 50},
+        {"kind": "EXH", "type": "(cfg * list (step * sobs) * bool)", "eval": "check_case", "per_shard": 32},
+        {"kind": "RND", "type": "(cfg * list (step * sobs) * bool)", "eval": "check_case", "per_shard": 32},
     ],
     "classes": {},
-    "n_quick": 2000, "n_thorough": 60000,
+    "n_quick": 1000, "n_thorough": 60000,
     "level": "proof",
+    "what_violation": "a load completes with other values than the loader/cache gave for its keys, a batch repeats a key or exceeds the bound, a key is never dispatched, or a load never completes",
+    "rule": ("stream EXH: EVERY schedule (order of the requests' critical sections, timer firings, loader answers, at most one "
+             "cancellation) of small configurations drawn in seed order from 4 cache kinds x max_batch_size 1..3 x cache disabled or "
+             "not x 9 request sets (<= 3 requests over 3 keys, duplicates, overlaps) x {plain, pre-fed cache, failing call + key not "
+             "found, one cancelled waiter}, each schedule run on a fresh real DataLoader (capped per configuration in the quick tier); "
+             "stream RND: random histories of 3-17 steps + draining (up to 9 requests, 2-5 keys, batch 1-5, NoCache/HashMap/LRU 1-3, "
+             "feeds, cancellations, loader errors, omitted and foreign keys, steps naming nothing live); distinct by (configuration, "
+             "schedule); non-trivial = some load completed with values"),
+    "trusted": ["harness adapters: hand-polled spawner (task id = spawn order), timer and loader parked on oneshots, noop waker; "
+                "new tasks are polled once right after the request that spawned them",
+                "differential sampling: Loader.v (mstep) = DataLoader critical sections on this run's schedules",
+                "the scc entry lock makes load_many's block, Requests::take and do_load's update + fan-out atomic (read from the source)"],
+    "assumptions": [
+        "one key type per machine; the cache-disable flags are constant during a schedule (C29 covers enable/disable sequences)",
+        "max_batch_size >= 1 and LruCache capacity >= 1",
+        "spawned tasks and timers run (the spawner does not drop tasks; the loader does not panic): otherwise rx.await.unwrap() panics",
+    ],
+}
+
+
+MANIFEST = {
+    "category": "proof",
+    "technique": "Coq proof (invariants of a state machine whose steps are the DataLoader's critical sections, by induction over "
+                 "arbitrary step sequences) + exhaustive small-configuration and random schedule correspondence against the real DataLoader",
+    "text": ("Coq theorems over every sequence of request / timer / loader-answer / cancel / feed steps: no batch handed to the loader "
+             "repeats a key; a batch is smaller than max_batch_size plus the largest request; every requested key is served from the "
+             "cache or sits in the pending key set (fewer than max_batch_size keys, a timer task armed that takes all of them) or in a "
+             "batch handed to the loader; every completed load holds exactly its request's cached values plus the loader's values for "
+             "its remaining keys from the batch containing them, or that batch's error; every waiting load is covered by an armed "
+             "timer or a task awaiting the loader, whose answer reaches every sender not cancelled. The machine is tied to the real "
+             "DataLoader by replaying every schedule of small configurations and random larger histories with a hand-driven spawner, "
+             "timer and loader."),
+    "note": ("trusted: Coq kernel, harness adapters, sampled agreement machine vs code, atomicity of the sections under the scc "
+             "entry lock; theorems closed under the global context (no axioms)"),
 }
 
 
